@@ -3,6 +3,7 @@ argv: prompt cont orig_prompt seed.  Responses are written in pieces (cut positi
 prompt and inside multi-byte characters) with short pauses so that the reader sees several reads."""
 import os
 import random
+import select
 import signal
 import sys
 import time
@@ -28,20 +29,46 @@ def main():
                 out.flush()
                 pos = c
                 time.sleep(0.004)
+    # An interrupt must never be lost: a SIGINT that arrives between two bytecodes of the loop below and the blocking read would
+    # otherwise only be noticed when the next line arrives (the handler has run, the read sleeps on) - the wrapper would then see
+    # a REPL that does not answer its interrupt, which is this child's fault, not pexpect's.  So the handler only sets a flag and
+    # the wake-up descriptor makes the wait below return: the wait is on the terminal AND on that descriptor.
+    rfd, wfd = os.pipe()
+    os.set_blocking(rfd, False)
+    os.set_blocking(wfd, False)
+    flag = {'int': False}
+
+    def on_int(signum, frame):
+        flag['int'] = True
+    signal.signal(signal.SIGINT, on_int)
+    signal.set_wakeup_fd(wfd, warn_on_full_buffer=False)
     emit('fake repl 1.0\r\n' + orig)
-    inp = sys.stdin.buffer
+    pending = b''
     while True:
-        try:
-            line = inp.readline()
-            if not line:
-                return
-            l = line.decode('utf-8').rstrip('\n')
+        if flag['int']:
+            flag['int'] = False
+            try:
+                while os.read(rfd, 512):
+                    pass
+            except BlockingIOError:
+                pass
+            pending = b''
+            emit(m.interrupt() + prompt)
+            continue
+        if b'\n' in pending:
+            line, pending = pending.split(b'\n', 1)
+            l = line.decode('utf-8')
             if l.startswith('w'):
                 time.sleep(2.2)                     # a line that takes longer than the spawn object's default timeout
             o, ok = m.step(l)
             emit(o + (prompt if ok else cont))
-        except KeyboardInterrupt:
-            emit(m.interrupt() + prompt)
+            continue
+        ready, _, _ = select.select([0, rfd], [], [])
+        if 0 in ready and not flag['int']:
+            data = os.read(0, 65536)
+            if not data:
+                return
+            pending += data
 
 
 if __name__ == '__main__':
